@@ -1175,11 +1175,41 @@ func (fr *Frame) index(in *ssa.Index) Value {
 
 // strByteAt: s[i] with bounds check; returns BV8.
 func (ex *Exec) strByteAt(fr *Frame, site ssa.Instruction, s *Term, idx *Term) *Term {
+	// constant table indexed by a symbolic bit-vector (e.g. hex digits): ite chain, no string theory
+	if sv, ok := s.StrVal(); ok && idx.Sort.isBV() && !idx.IsConst() && len(sv) <= 64 {
+		n := mkBV(idx.Sort, uint64(len(sv)))
+		if !ex.branch(tBVUlt(idx, n), site) {
+			fr.rtPanic(site, "index out of range (string)")
+		}
+		var r *Term = mkBV(SBV8, uint64(sv[len(sv)-1]))
+		for k := len(sv) - 2; k >= 0; k-- {
+			r = tIte(tEq(idx, mkBV(idx.Sort, uint64(k))), mkBV(SBV8, uint64(sv[k])), r)
+		}
+		return r
+	}
 	var ii *Term
 	if idx.Sort == SInt {
 		ii = idx
 	} else {
 		ii = tBVToInt(idx, true)
+	}
+	// structured string (constants and single-character atoms) at a concrete position
+	if i, ok := ii.IntVal(); ok && hasStructure(s) {
+		parts := strPartsOf(s)
+		if len(parts) == 1 && parts[0].v == nil {
+			as := parts[0].atoms
+			if i < 0 || int(i) >= len(as) {
+				fr.rtPanic(site, "index out of range (string)")
+			}
+			a := as[i]
+			if a.code == nil {
+				return mkBV(SBV8, uint64(a.c))
+			}
+			if a.code.Op == "bv2nat" && a.code.Args[0].Sort == SBV8 {
+				return a.code.Args[0]
+			}
+			return tIntToBV(a.code, SBV8)
+		}
 	}
 	inb := tAnd(tIntCmp(">=", ii, mkInt(0)), tIntCmp("<", ii, tStrLen(s)))
 	if !ex.branch(inb, site) {
